@@ -9,6 +9,11 @@
 // read, smallest size), so deleting or zeroing tape entries simplifies a case.
 package tape
 
+import (
+	"syscall"
+	"unsafe"
+)
+
 // Mix is splitmix64's output function.
 func Mix(x uint64) uint64 {
 	x += 0x9e3779b97f4a7c15
@@ -32,6 +37,24 @@ type Tape struct {
 	pos    int
 	state  uint64
 	replay bool
+	fd     int // if > 0: every value drawn is written here at once (raw write)
+}
+
+// RecordTo makes the tape write every value it hands out to fd immediately,
+// with a raw system call (so that the values survive a crash of the process
+// and the write is invisible to the race detector).
+func (t *Tape) RecordTo(fd int) { t.fd = fd }
+
+//go:norace
+func (t *Tape) record(v uint64) {
+	if t.fd <= 0 {
+		return
+	}
+	var b [8]byte
+	for i := range b {
+		b[i] = byte(v >> (8 * i))
+	}
+	syscall.Syscall(syscall.SYS_WRITE, uintptr(t.fd), uintptr(unsafe.Pointer(&b[0])), 8)
 }
 
 // New returns a generating tape.
@@ -66,10 +89,12 @@ func (t *Tape) Raw() uint64 {
 	if t.pos < len(t.vals) {
 		v := t.vals[t.pos]
 		t.pos++
+		t.record(v)
 		return v
 	}
 	if t.replay {
 		t.pos++
+		t.record(0)
 		return 0
 	}
 	t.state += 0x9e3779b97f4a7c15
@@ -81,6 +106,7 @@ func (t *Tape) Raw() uint64 {
 		t.vals = append(t.vals, v)
 	}
 	t.pos++
+	t.record(v)
 	return v
 }
 
